@@ -291,6 +291,10 @@ AtomsSmall ==
   \cup {A("char", 3), A("float", 2)}
   \cup {B("int", 3), B("uint", 30), B("char", 6), B("long", 33), B("ushort", 9), B("bool", 1), U("int", 0), U("long", 0), U("int", 5)}
 
+(* long double overlaid with / next to integer and SSE members: in a union of 16 bytes INTEGER wins over X87/X87UP  *)
+(* per eightbyte (union {long double; long[2]} is INTEGER,INTEGER), X87UP left alone or X87 merged with SSE is MEMORY *)
+AtomsLd == {F("ldouble"), F("long"), F("char"), F("double"), A("long", 2), A("int", 3), A("char", 3), B("long", 40)}
+
 AtomsTiny == {F("char"), F("int"), F("double"), F("float"), F("long"), B("int", 5), B("uchar", 7), U("int", 0)}
 
 (* nested member forms: <<aggregate kind, anonymous?, array length (0 = not an array)>> *)
